@@ -15,9 +15,12 @@ import (
 	"io"
 	"os"
 	"os/exec"
+	"os/signal"
+	"runtime"
 	"runtime/debug"
 	"strings"
 	"sync"
+	"syscall"
 	"time"
 
 	"github.com/php-any/origami/data"
@@ -92,7 +95,12 @@ func panicSite(stack string) string {
 	lines := strings.Split(stack, "\n")
 	for _, l := range lines {
 		l = strings.TrimSpace(l)
-		if (strings.Contains(l, "/lexer/") || strings.Contains(l, "/parser/") || strings.Contains(l, "/node/") || strings.Contains(l, "/data/") || strings.Contains(l, "/runtime/")) && strings.Contains(l, ".go:") {
+		if !strings.Contains(l, ".go:") || strings.Contains(l, "/src/runtime/") || strings.Contains(l, "golang.org/toolchain") ||
+			strings.Contains(l, "/verif/") || strings.Contains(l, "/go/src/") {
+			continue
+		}
+		if strings.Contains(l, "/lexer/") || strings.Contains(l, "/parser/") || strings.Contains(l, "/node/") || strings.Contains(l, "/data/") ||
+			strings.Contains(l, "/runtime/") || strings.Contains(l, "/std/") || strings.Contains(l, "/utils/") {
 			if i := strings.Index(l, " +0x"); i >= 0 {
 				l = l[:i]
 			}
@@ -108,8 +116,65 @@ func panicSite(stack string) string {
 	return "?"
 }
 
+// stackFns returns the origami function names on goroutine 1's stack, outermost first.
+func stackFns() []string {
+	buf := make([]byte, 1<<20)
+	n := runtime.Stack(buf, true)
+	dump := string(buf[:n])
+	i := strings.Index(dump, "goroutine 1 [")
+	if i < 0 {
+		return nil
+	}
+	dump = dump[i:]
+	if j := strings.Index(dump, "\n\ngoroutine "); j >= 0 {
+		dump = dump[:j]
+	}
+	var fns []string
+	for _, l := range strings.Split(dump, "\n") {
+		if strings.HasPrefix(l, "github.com/php-any/origami/") {
+			fn := strings.TrimPrefix(l, "github.com/php-any/origami/")
+			if k := strings.LastIndex(fn, "("); k >= 0 {
+				fn = fn[:k]
+			}
+			fns = append(fns, fn)
+		}
+	}
+	// reverse: outermost first
+	for a, b := 0, len(fns)-1; a < b; a, b = a+1, b-1 {
+		fns[a], fns[b] = fns[b], fns[a]
+	}
+	return fns
+}
+
+// hangSampler: on SIGUSR1 sample the main goroutine's stack a few times and report the
+// deepest frame common to all samples — the function whose loop does not end.
+func hangSampler() {
+	ch := make(chan os.Signal, 1)
+	signal.Notify(ch, syscall.SIGUSR1)
+	go func() {
+		<-ch
+		common := stackFns()
+		for k := 0; k < 6; k++ {
+			time.Sleep(25 * time.Millisecond)
+			s := stackFns()
+			n := 0
+			for n < len(common) && n < len(s) && common[n] == s[n] {
+				n++
+			}
+			common = common[:n]
+		}
+		site := "?"
+		if len(common) > 0 {
+			site = common[len(common)-1]
+		}
+		fmt.Fprintf(os.Stderr, "\nHANGSITE %s\n", site)
+		os.Exit(3)
+	}()
+}
+
 func childMain(args []string) int {
 	debug.SetMaxStack(256 << 20)
+	hangSampler()
 	in := bufio.NewReaderSize(os.Stdin, 1<<20)
 	out := bufio.NewWriterSize(os.Stdout, 1<<20)
 	env := vh.NewEnv()
@@ -185,7 +250,7 @@ type worker struct {
 
 func startWorker() (*worker, error) {
 	cmd := exec.Command(vh.Self(), "__child", "lexparse")
-	cmd.Env = append(os.Environ(), "GOMEMLIMIT=1500MiB", "GOTRACEBACK=single")
+	cmd.Env = append(os.Environ(), "GOMEMLIMIT=1500MiB", "GOTRACEBACK=all")
 	in, err := cmd.StdinPipe()
 	if err != nil {
 		return nil, err
@@ -228,8 +293,9 @@ func (w *worker) kill() {
 type Verdict struct {
 	Resp   *Resp
 	Died   string // non-empty: the child process died (fatal error / os.Exit); head of stderr
-	Hung   bool
-	WallMS int64
+	Hung     bool
+	HangSite string // innermost origami frames of the goroutine that was running
+	WallMS   int64
 }
 
 // Pool runs requests on n workers; each request has its own timeout.
@@ -319,7 +385,18 @@ func (p *Pool) Run(reqs []Req) []Verdict {
 					}
 					res[idx] = Verdict{Resp: &rs, WallMS: time.Since(t0).Milliseconds()}
 				case <-time.After(Timeout(len(rq.Hex) / 2)):
-					res[idx] = Verdict{Hung: true, WallMS: time.Since(t0).Milliseconds()}
+					// ask the child where it is looping (SIGUSR1 → stack sampler)
+					w.cmd.Process.Signal(syscall.SIGUSR1)
+					time.Sleep(400 * time.Millisecond)
+					eb := w.cmd.Stderr.(*tailBuf)
+					eb.mu.Lock()
+					dump := string(eb.b)
+					eb.mu.Unlock()
+					site := "?"
+					if k := strings.LastIndex(dump, "HANGSITE "); k >= 0 {
+						site = strings.TrimSpace(strings.SplitN(dump[k+9:], "\n", 2)[0])
+					}
+					res[idx] = Verdict{Hung: true, HangSite: site, WallMS: time.Since(t0).Milliseconds()}
 					w.kill()
 					w = nil
 				}
